@@ -4,6 +4,9 @@ use crate::{Cfg, Report};
 
 pub mod attr;
 pub mod c03_clip;
+pub mod c04_cover;
+pub mod c05_frag;
+pub mod rast;
 pub mod c12_tex;
 
 pub type MonFn = fn(&Cfg, &mut Report);
@@ -11,6 +14,8 @@ pub type MonFn = fn(&Cfg, &mut Report);
 pub fn lookup(prop: &str) -> Option<MonFn> {
     Some(match prop {
         "C03" => c03_clip::run,
+        "C04" => c04_cover::run,
+        "C05" => c05_frag::run,
         "C12" => c12_tex::run,
         _ => return None,
     })
